@@ -26,7 +26,7 @@ Next ==
         s.phase = "reading" /\ s.idx < Len(s.items) /\
         \E pre \in (IF dst = "prepop" THEN {LongPre(DstType(s.items[s.idx + 1], via)), ShortPre(DstType(s.items[s.idx + 1], via))} ELSE {0}) :
            Read(via, dst, pre)
-  \/ \E t \in PodTags : Probe(t)
+  \/ \E t \in ProbeTags : Probe(t)
   \/ \E n \in {-1, 0, Rem(s), Rem(s) + 1, Rem(s) + 2} : View(n)
 Spec == Init /\ [][Next]_vars
 
